@@ -82,6 +82,25 @@ fn ty_class(t: &Ty) -> &'static str {
     }
 }
 
+fn tparams_of(t: &Ty, out: &mut std::collections::BTreeSet<String>) {
+    match t {
+        Ty::TParam { name } => {
+            out.insert(name.clone());
+        }
+        Ty::TTuple { typs } => typs.iter().for_each(|t| tparams_of(t, out)),
+        Ty::TApp { ty, args } => {
+            tparams_of(ty, out);
+            args.iter().for_each(|t| tparams_of(t, out))
+        }
+        Ty::TArray { elem, .. } | Ty::TVec { elem } | Ty::TRef { elem } => tparams_of(elem, out),
+        Ty::TFunc { params, ret_ty } => {
+            params.iter().for_each(|t| tparams_of(t, out));
+            tparams_of(ret_ty, out)
+        }
+        _ => {}
+    }
+}
+
 fn ty_eq(a: &Ty, b: &Ty) -> bool {
     a == b
 }
@@ -242,6 +261,28 @@ pub fn emit(id: &str, src: Option<&str>, st: &Staged, out: &mut String) {
             writeln!(out, "{}\tWT\tanf\t{}", id, c.to_text()).unwrap();
         }
     }
+    if let Some(core) = &st.core {
+        writeln!(out, "{}\tSIGTPARAMS\t{}", id, c07::sig_tparams(core).into_iter().collect::<Vec<_>>().join(" ")).unwrap();
+    }
+    if let (Some(core), Some(go)) = (&st.core, &st.go) {
+        // names of the type parameters of the program (for the Go-stage residue check)
+        let mut ps = std::collections::BTreeSet::new();
+        for d in genv.enums().values() {
+            ps.extend(d.generics.iter().map(|g| g.0.clone()));
+        }
+        for d in genv.structs().values() {
+            ps.extend(d.generics.iter().map(|g| g.0.clone()));
+        }
+        for f in core.toplevels.iter() {
+            ps.extend(f.generics.iter().cloned());
+            for (_, t) in f.params.iter() {
+                tparams_of(t, &mut ps);
+            }
+            tparams_of(&f.ret_ty, &mut ps);
+        }
+        writeln!(out, "{}\tTPARAMS\t{}", id, ps.into_iter().collect::<Vec<_>>().join(" ")).unwrap();
+        writeln!(out, "{}\tGO\t{}", id, go).unwrap();
+    }
     match &st.stop {
         None => writeln!(out, "{}\tDONE", id).unwrap(),
         Some((kind, stage, msg)) => writeln!(out, "{}\t{}\t{}\t{}", id, kind.to_uppercase(), stage, esc_line(msg)).unwrap(),
@@ -269,6 +310,7 @@ pub fn gen_cfg(i: usize) -> crate::progen::Cfg {
         dyn_generics: i % 4 == 0,
         generic_fn_values: false,
         overlapping_impls: i % 4 < 2,
+        result_only_generics: i % 4 != 1,
         ..Default::default()
     }
 }
